@@ -30,6 +30,7 @@ class GhostFS:
 
 
 class GhostPath:
+    _pyvc_ok = True
     """pathlib.Path stand-in.  Concrete structure (parent parts, name), symbolic file state in `fs`."""
 
     def __init__(self, fs, parts, name):
@@ -171,6 +172,7 @@ def _memmap(I, a, k):
 
 
 class GhostFile:
+    _pyvc_ok = True
     """file opened for writing: ndarray.tofile(f) writes at the current position and advances it; every write is recorded
     as (position before, array snapshot).  Positions are byte offsets (symbolic)."""
 
